@@ -10,7 +10,7 @@ cd $WT
 git apply /verif/seeded/$S/patch.diff || { echo "APPLY FAILED"; exit 3; }
 echo "== existing tests with patch:"; go test -count=1 ./$PKG/... "$@" 2>&1 | grep -v "no test files" | tail -8
 cp /verif/seeded/$S/zz_demo_test.go $PKG/zz_demo_test.go
-echo "== demo with patch (expect FAIL):"; go test -count=1 -run TestZZDemo ./$PKG/ 2>&1 | tail -3
+echo "== demo with patch (expect FAIL):"; go test -count=1 -run Demo ./$PKG/ 2>&1 | tail -3
 git checkout -q -- . 
-echo "== demo without patch (expect ok):"; go test -count=1 -run TestZZDemo ./$PKG/ 2>&1 | tail -3
+echo "== demo without patch (expect ok):"; go test -count=1 -run Demo ./$PKG/ 2>&1 | tail -3
 cd /; git -C /repo worktree remove --force $WT
